@@ -75,6 +75,11 @@ pub fn len_for_room(cursor_off: u64, qlen: usize, nrec: usize, delta: i64) -> us
 pub fn payload_len(r: &Runner, rng: &mut Rng, qlen: usize, nrec: usize, cfg: &GenCfg) -> usize {
     let off = r.real.cursor.1;
     let w = rng.below(100);
+    if off >= FILE - BLOCK && off < FILE && rng.chance(1, 4) {
+        // in the last block of a file: end exactly at the end of the file (or a few bytes short)
+        let delta = if rng.chance(1, 2) { -7 } else { rng.below(8) as i64 - 7 };
+        return len_for_room(off, qlen, nrec, delta);
+    }
     if w < 20 {
         // leave 0..=14 bytes before the block end: covers padding (<7), exactly a header (7), 8, ...
         let delta = rng.below(15) as i64 - 7;
